@@ -252,6 +252,12 @@ def scenario():
                          unique=True),
         "choices": st.lists(st.integers(0, 3), max_size=40),
         "chstart": st.one_of(st.just(0), st.integers(0, 4000)),
+        # application threads descheduled (virtual time) at generated
+        # scheduling points at which they hold no lock
+        "stalls": st.one_of(st.just([]), st.lists(st.tuples(
+            st.sampled_from(["i:", "t:", "i:", "t:", "serve"]),
+            st.integers(1, 120),
+            st.sampled_from([0.002, 0.01, 0.05, 0.2])), max_size=6)),
         "seed": st.integers(0, 255)})
 
 
@@ -267,6 +273,7 @@ def run(case, ctx):
                               for i, c in enumerate(case["choices"]))
     if case.get("force"):
         P.sched.forced = {int(case["force"][0]): int(case["force"][1])}
+    P.sched.stalls = [list(x) for x in case.get("stalls", [])]
     srv, cli = case["server"], ("t" if case["server"] == "i" else "i")
     threads = []          # (side, program, state dict)
     oldsock = {}
@@ -293,8 +300,40 @@ def run(case, ctx):
             st_["done"] = True
         return body
 
+    terminated = {}       # side -> llc.terminate() has completed
+    fresh = []            # sockets created / bound after that
+
+    def watch(side, llc):
+        orig_terminate, orig_socket = llc.terminate, llc.socket
+
+        def terminate(reason):
+            try:
+                return orig_terminate(reason)
+            finally:
+                terminated[side] = True
+
+        def socket(socket_type):
+            sock = orig_socket(socket_type)
+            if terminated.get(side):
+                fresh.append(sock)
+            return sock
+
+        orig_bind = llc.bind
+
+        def bind(socket, *args):
+            try:
+                return orig_bind(socket, *args)
+            finally:
+                # bound although the link had terminated (a socket bound
+                # before would have been shut down by terminate())
+                if terminated.get(side) and socket.is_bound and \
+                        not socket.state.SHUTDOWN:
+                    fresh.append(socket)
+        llc.terminate, llc.socket, llc.bind = terminate, socket, bind
+
     def on_connect(side, names):
         def cb(llc):
+            watch(side, llc)
             # a socket that exists before the link ends, for phase 2
             oldsock[side] = nfc.llcp.Socket(llc, nfc.llcp.LOGICAL_DATA_LINK)
             oldsock[side].bind(60)
@@ -357,6 +396,13 @@ def run(case, ctx):
         P.sched.settle()
         returned = {s: (s in P.result or s in P.exc) for s in "it"}
         alive = [t for t in P.sched.alive()]
+        fresh_waits = set()
+        for sock in fresh:
+            for attr in ("recv_ready", "send_ready", "acks_ready",
+                         "send_token"):
+                if hasattr(sock, attr):
+                    fresh_waits.add(id(getattr(sock, attr)))
+        on_fresh = set(t.name for t in alive if id(t.wait_on) in fresh_waits)
         failures = P.sched.failures()
         # phase 2: calls after termination
         if all(returned.values()) and not alive:
@@ -413,6 +459,14 @@ def run(case, ctx):
         raise Violation("connect-did-not-return", repr(verdict["returned"]))
     if verdict["alive"]:
         names = sorted(n for n, _ in verdict["alive"])
+        if all(n in on_fresh for n in names):
+            # every waiting thread waits on a socket that was created or
+            # bound after the link had terminated (its program had been
+            # descheduled that long): the known post-termination finding,
+            # not a thread that termination left behind
+            ctx.set_class("post/fresh-socket-blocking-call")
+            raise Violation("post-termination-call-blocks",
+                            "program started late: %r" % (names,))
         ctx.set_class("phase1/%s/%s" % (cause.split("-")[0],
                                         names[0].split(":")[-1]))
         raise Violation("thread-left-waiting",
